@@ -423,8 +423,13 @@ def sc_c19h(env, spec, v, cfg):
     buf, h, nbL, nbR = build(env, spec, v, cfg)
     full = HY_full(spec, v)
     exp = HY.expected(spec, v)
-    m = env.mark()
     kw = {} if cfg.get("copy_to_cpu", True) else dict(copy_to_cpu=False)
+    if spec[1] in HY.BASE_OF:
+        # the class derives from another hybrid class: an object of the BASE class is turned into its dictionary form first
+        # (M10-C19: what the base class worked out for itself must not be taken for the derived class)
+        bspec = HY.BASE_OF[spec[1]]
+        _guard(env, "C19 to_dict() of an object of the base class", lambda: HY.make_h(bspec, {"n": 7, "x": 1.0}, _buffer=buf).to_dict(**kw))
+    m = env.mark()
     ok, d = _guard(env, "C19 to_dict()", lambda: h.to_dict(**kw))
     if not ok:
         env.reach()
